@@ -309,3 +309,168 @@ pub fn woff_open(d: &[u8]) -> Option<(u32, Vec<(String, Vec<u8>, bool)>)> {
     }
     Some((flavor, out))
 }
+
+// ---- a font with a "seac" glyph ---------------------------------------------------------------------
+
+/// CFF INDEX at `p`: (count, offSize, position of the offset array, position of the data - 1 + offset, end)
+fn cff_index(d: &[u8], p: usize) -> Option<(usize, usize, usize, usize, usize)> {
+    let count = be16(d, p)? as usize;
+    if count == 0 {
+        return Some((0, 0, p + 2, p + 2, p + 2));
+    }
+    let os = *d.get(p + 2)? as usize;
+    if os == 0 || os > 4 {
+        return None;
+    }
+    let oa = p + 3;
+    let rd = |k: usize| -> Option<usize> {
+        let s = d.get(oa + os * k..oa + os * (k + 1))?;
+        Some(s.iter().fold(0usize, |a, &b| (a << 8) | b as usize))
+    };
+    let data = oa + os * (count + 1) - 1;
+    Some((count, os, oa, data, data + rd(count)?))
+}
+
+fn cff_index_item(d: &[u8], p: usize, k: usize) -> Option<(usize, usize)> {
+    let (count, os, oa, data, _) = cff_index(d, p)?;
+    if k >= count {
+        return None;
+    }
+    let rd = |k: usize| -> Option<usize> {
+        let s = d.get(oa + os * k..oa + os * (k + 1))?;
+        Some(s.iter().fold(0usize, |a, &b| (a << 8) | b as usize))
+    };
+    let (a, b) = (rd(k)?, rd(k + 1)?);
+    if a == 0 || b < a {
+        return None;
+    }
+    Some((data + a, data + b))
+}
+
+/// A copy of a (not CID-keyed) CFF font in which the charstring of the glyph for a letter is an accented
+/// character made with the four-argument endchar ("seac") of Type 2 charstrings: base `B`, accent
+/// `C` (codes of the standard encoding).  The bytes before it are stem hints without effect, so that
+/// the charstring keeps its length.  None when the font is not of that kind.
+pub fn seac_variant(src: &[u8]) -> Option<Vec<u8>> {
+    let mut d = src.to_vec();
+    let n = be16(&d, 4)? as usize;
+    let mut cff = None;
+    for i in 0..n {
+        let r = 12 + 16 * i;
+        if d.get(r..r + 4)? == b"CFF " {
+            cff = Some((be32(&d, r + 8)? as usize, be32(&d, r + 12)? as usize));
+        }
+    }
+    let (t, tl) = cff?;
+    let hdr = *d.get(t + 2)? as usize;
+    let (_, _, _, _, name_end) = cff_index(&d, t + hdr)?;
+    let (top_a, top_b) = cff_index_item(&d, name_end, 0)?;
+    // Top DICT: charset (15), CharStrings (17); ROS (12 30) = CID-keyed
+    let (mut charset, mut charstrings) = (0usize, None);
+    let mut ops: Vec<i64> = Vec::new();
+    let mut p = top_a;
+    while p < top_b {
+        let b0 = d[p] as usize;
+        match b0 {
+            12 => {
+                if d.get(p + 1) == Some(&30) {
+                    return None;
+                }
+                ops.clear();
+                p += 2;
+            }
+            0..=21 => {
+                if b0 == 15 {
+                    charset = *ops.last()? as usize;
+                } else if b0 == 17 {
+                    charstrings = Some(*ops.last()? as usize);
+                }
+                ops.clear();
+                p += 1;
+            }
+            28 => {
+                ops.push(be16(&d, p + 1)? as i16 as i64);
+                p += 3;
+            }
+            29 => {
+                ops.push(be32(&d, p + 1)? as i32 as i64);
+                p += 5;
+            }
+            30 => {
+                p += 1;
+                while p < top_b {
+                    let x = d[p];
+                    p += 1;
+                    if x & 0x0f == 0x0f || x >> 4 == 0x0f {
+                        break;
+                    }
+                }
+                ops.push(0);
+            }
+            32..=246 => {
+                ops.push(b0 as i64 - 139);
+                p += 1;
+            }
+            247..=250 => {
+                ops.push((b0 as i64 - 247) * 256 + *d.get(p + 1)? as i64 + 108);
+                p += 2;
+            }
+            251..=254 => {
+                ops.push(-(b0 as i64 - 251) * 256 - *d.get(p + 1)? as i64 - 108);
+                p += 2;
+            }
+            _ => p += 1,
+        }
+    }
+    let cs = t + charstrings?;
+    let (nglyphs, ..) = cff_index(&d, cs)?;
+    // glyph of SID 34 ('A'); 'B' and 'C' must be there as well
+    let gid_of = |sid: usize| -> Option<usize> {
+        if charset <= 2 {
+            return if charset == 0 && sid < nglyphs { Some(sid) } else { None };
+        }
+        let c = t + charset;
+        match *d.get(c)? {
+            0 => (1..nglyphs).find(|g| be16(&d, c + 1 + 2 * (g - 1)).map(|s| s as usize) == Some(sid)),
+            f => {
+                let lw = if f == 1 { 1 } else { 2 };
+                let (mut g, mut q) = (1usize, c + 1);
+                while g < nglyphs {
+                    let first = be16(&d, q)? as usize;
+                    let left = if lw == 1 { *d.get(q + 2)? as usize } else { be16(&d, q + 2)? as usize };
+                    if sid >= first && sid <= first + left {
+                        return Some(g + sid - first);
+                    }
+                    g += left + 1;
+                    q += 2 + lw;
+                }
+                None
+            }
+        }
+    };
+    // the first letter whose charstring has room for the five bytes (and is one of the first 64 glyphs: the
+    // outlines group visits those); base 'B' and accent 'C' must exist
+    gid_of(35)?;
+    gid_of(36)?;
+    let (a, b) = (34..=95usize).filter(|s| *s != 35 && *s != 36).find_map(|sid| {
+        let g = gid_of(sid)?;
+        let (a, b) = cff_index_item(&d, cs, g)?;
+        if g < 64 && b <= t + tl && b >= a + 5 {
+            Some((a, b))
+        } else {
+            None
+        }
+    })?;
+    // filler: groups of zeros closed by hstem, then  0 0 'B' 'C' endchar
+    let mut code: Vec<u8> = Vec::new();
+    let mut rest = b - a - 5;
+    while rest > 0 {
+        let k = (rest - 1).min(40);
+        code.extend(std::iter::repeat(139u8).take(k));
+        code.push(1);
+        rest -= k + 1;
+    }
+    code.extend_from_slice(&[139, 139, 66 + 139, 67 + 139, 14]);
+    d[a..b].copy_from_slice(&code);
+    Some(d)
+}
